@@ -119,6 +119,27 @@ func writeExpr(b *strings.Builder, e ast.Expr) {
 	}
 }
 
+// pkgVarNamed: sv is the SSA value that debug information attaches to the identifier; when that value is a
+// load of the package-level variable of the same name, the specification means the variable itself
+func (env *Env) pkgVarNamed(name string, sv ssa.Value) (Val, bool) {
+	if env.pkg == nil {
+		return Val{}, false
+	}
+	if _, isVar := env.pkg.Scope().Lookup(name).(*types.Var); !isVar {
+		return Val{}, false
+	}
+	var inner ssa.Value = sv
+	if u, ok := sv.(undefinedHere); ok {
+		inner = u.Value
+	}
+	if un, ok := inner.(*ssa.UnOp); ok && un.Op == token.MUL {
+		if g, ok := un.X.(*ssa.Global); ok && g.Name() == name {
+			return env.lookupPkgObj(env.pkg, name)
+		}
+	}
+	return Val{}, false
+}
+
 func (env *Env) lookupPkgObj(pkg *types.Package, name string) (Val, bool) {
 	if pkg == nil {
 		return Val{}, false
@@ -238,6 +259,10 @@ func (env *Env) ident(name string) (Val, error) {
 	if env.fr != nil && env.at != nil {
 		if sv, isAddr, ok := env.fr.lookupNameAt(name, env.at, env.atEnd, env.maxOrd); ok {
 			var v Val
+			// a name that denotes a package-level variable reads the variable, wherever the body happens to load it
+			if g, isG := env.pkgVarNamed(name, sv); isG {
+				return g, nil
+			}
 			if u, isUndef := sv.(undefinedHere); isUndef {
 				v = env.vc.freshVal("undef_"+name, u.Value.Type(), env.heap)
 			} else if ov, ok := env.over[sv]; ok {
@@ -734,6 +759,13 @@ func (env *Env) call(x *ast.CallExpr) (Val, error) {
 		if err != nil {
 			return Val{}, err
 		}
+		// an untyped nil branch takes the zero value of the other branch's type (nil slice, nil interface)
+		isNil := func(e ast.Expr) bool { id, ok := e.(*ast.Ident); return ok && id.Name == "nil" }
+		if isNil(x.Args[1]) && !isNil(x.Args[2]) && b.Typ != nil {
+			a = Val{T: vc.zeroOf(b.Typ), Typ: b.Typ}
+		} else if isNil(x.Args[2]) && !isNil(x.Args[1]) && a.Typ != nil {
+			b = Val{T: vc.zeroOf(a.Typ), Typ: a.Typ}
+		}
 		r := a
 		r.T = sIte(c, a.T, b.T)
 		r.Loc = nil
@@ -1138,6 +1170,32 @@ func (vc *VC) withPatterns(bv, body string) string {
 // when every slice access of the body indexes with (+ X i) for one offset term X: the array reads then
 // mention the bound variable alone, which gives the solvers' E-matching a usable trigger.
 func shiftIndexVar(bv, rng, body string) [][2]string {
+	offs := indexOffsets(bv, body)
+	if len(offs) == 0 || len(offs) > 2 {
+		return [][2]string{{rng, body}}
+	}
+	// one equivalent copy per offset term (at most two): each copy offers the trigger of one of the slices
+	var out [][2]string
+	for _, x := range offs {
+		r, b := rng, body
+		// nested sums such as (+ off (+ base i)) are peeled layer by layer
+		for round := 0; round < 3 && x != "" && x != "0"; round++ {
+			r, b = shiftOnce(bv, r, b, x)
+			x = ""
+			for _, y := range indexOffsets(bv, b) {
+				if y != "0" {
+					x = y
+					break
+				}
+			}
+		}
+		out = append(out, [2]string{r, b})
+	}
+	return out
+}
+
+// offset terms X of subterms (+ X bv) with X free of bv, in order of appearance
+func indexOffsets(bv, body string) []string {
 	var offs []string
 	seen := map[string]bool{}
 	pre := "(+ "
@@ -1145,7 +1203,6 @@ func shiftIndexVar(bv, rng, body string) [][2]string {
 		if !strings.HasPrefix(body[i:], pre) {
 			continue
 		}
-		// first argument
 		j := i + len(pre)
 		a1, e1 := sexprAt(body, j)
 		if e1 < 0 || e1 >= len(body) || body[e1] != ' ' {
@@ -1155,30 +1212,24 @@ func shiftIndexVar(bv, rng, body string) [][2]string {
 		if e2 < 0 || e2 >= len(body) || body[e2] != ')' {
 			continue
 		}
-		if a2 == bv && !strings.Contains(a1, bv) && !seen[a1] {
+		if a2 == bv && !containsSym(a1, bv) && !seen[a1] {
 			seen[a1] = true
 			offs = append(offs, a1)
 		}
 	}
-	if len(offs) == 0 || len(offs) > 2 {
-		return [][2]string{{rng, body}}
-	}
-	// one equivalent copy per offset term (at most two): each copy offers the trigger of one of the slices
-	var out [][2]string
-	for _, x := range offs {
-		if x == "0" {
-			out = append(out, [2]string{rng, body})
-			continue
-		}
-		mark := "\x00SHIFTED\x00"
-		nb := strings.ReplaceAll(body, "(+ "+x+" "+bv+")", mark)
-		back := "(- " + bv + " " + x + ")"
-		nb = replaceSym(nb, bv, back)
-		nb = strings.ReplaceAll(nb, mark, bv)
-		nr := replaceSym(rng, bv, back)
-		out = append(out, [2]string{nr, nb})
-	}
-	return out
+	return offs
+}
+
+func containsSym(s, sym string) bool { return replaceSym(s, sym, "\x00") != s }
+
+func shiftOnce(bv, rng, body, x string) (string, string) {
+	mark := "\x00SHIFTED\x00"
+	nb := strings.ReplaceAll(body, "(+ "+x+" "+bv+")", mark)
+	back := "(- " + bv + " " + x + ")"
+	nb = replaceSym(nb, bv, back)
+	nb = strings.ReplaceAll(nb, mark, bv)
+	nr := replaceSym(rng, bv, back)
+	return nr, nb
 }
 
 // sexprAt returns the s-expression (atom or balanced list) starting at position i and the index just after it
